@@ -208,15 +208,19 @@ class C09(Property):
         exp, efin, _ = ref_run(ops)
         if len(tr) != len(exp):
             return "trace length %d != %d ops" % (len(tr), len(exp))
+        loose = False          # an invalidated checkpoint was used and accepted: from here on only well-formedness is required
         for i, (g, e) in enumerate(zip(tr, exp)):
+            if g.startswith("?") or g == "!":
+                # an index / slice / unwrap panic that is none of the documented ones: the builder is ill-formed
+                return "op %d (%s): unexpected panic kind %s%s" % (i, ops[i], g, " (after an invalidated checkpoint was accepted)" if loose else "")
+            if loose:
+                continue
             if e == "." and g != ".":
                 return "op %d (%s): panicked (%s) although the reference model says it must succeed" % (i, ops[i], g)
             if e == "P" and g == ".":
                 return "op %d (%s): succeeded although it must panic" % (i, ops[i])
-            if g.startswith("?") or g == "!":
-                return "op %d (%s): unexpected panic kind %s" % (i, ops[i], g)
             if e == "?":
-                break
+                loose = True
         if efin is not None:
             if efin == "PANIC":
                 if not fin.startswith("PANIC:"):
